@@ -1,15 +1,37 @@
 """regenerate MANIFEST.json from the table below (run: ./vx py tools_manifest.py)"""
 import json, os
 HERE = os.path.dirname(os.path.abspath(__file__))
+SYM = "symbolic execution of the real Python code with z3 (own replay-DFS engine; bounded, path-complete within the bound)"
+TRUST = ("trusts: z3, the proxy layer (validated on every path by re-running the unmodified modules on the path's witness), "
+         "representative-character classes / code-derived token alphabet, ")
 CHECKS = {
+ "C01": ("model_checking", "§2 C01",
+   "Token kinds and inter-token gaps are solver variables; the real Tokenizer+XonshParser run on them; each accepting path is compared with ast.parse on "
+   "its witness (all fields and positions) and every span term is proved by z3 to sit on the same token boundary for ALL gap values of the path class. "
+   "Bounds: all streams over the Python part of the alphabet up to length 2 (quick) / 3 (thorough), seed statements with all gaps symbolic, one symbolic "
+   "token or character per seed, symbolically chosen layout variants. Not a proof: programs outside these shapes are not covered.",
+   TRUST + "CPython as an opaque per-path oracle (tight classes on accepting paths)", SYM + " + z3 span lifting; CPython differential per path"),
+ "C02": ("model_checking", "§2 C02",
+   "The accepted language restricted to the Python lexicon is explored symbolically (all streams up to length 2/3, every single-token and single-character "
+   "substitution of seeds with the substituted element a solver variable, every proper prefix); every ACCEPTING path class is decided by ast.parse on its witness.",
+   TRUST + "CPython as an opaque oracle on accepting paths", SYM + "; CPython verdict per accepting path"),
  "C03": ("model_checking", "§2 C03",
-   "Path-complete symbolic execution (own replay-DFS engine, z3 deciding every branch) of the real generate_tokens / Tokenizer / XonshParser on "
-   "symbolic characters (all strings over R up to length 2 quick / 3 thorough; seeds with one symbolic character; every prefix) and on symbolic token "
-   "streams (all streams over the code-derived alphabet up to length 2 / 3). The outcome class of each path is the verdict for its whole input class; "
-   "bounded, not a proof: longer inputs are covered only through the seeded holes.",
-   "trusts: z3, the proxy layer (validated on every path by re-running the unmodified modules on the path's witness), representative-character classes, "
-   "step/wall budgets as the non-termination detector",
-   "symbolic execution of the real Python code with z3 (bounded, path-complete)"),
+   "Path-complete symbolic execution of the real generate_tokens / Tokenizer / XonshParser on symbolic characters (all strings over R up to length 2 quick / 3 "
+   "thorough; seeds with one symbolic character; every prefix) and on symbolic token streams (all streams over the code-derived alphabet up to length 2 / 3). "
+   "The outcome class of each path is the verdict for its whole input class; bounded, not a proof.",
+   TRUST + "step/wall budgets as the non-termination detector", SYM),
+ "C04": ("model_checking", "§2 C04",
+   "On every accepting path of the symbolic explorations (Python and xonsh kinds) the tree is walked by a reference shape/context walker derived from CPython's "
+   "ASDL signatures and handed to compile(); tree shape is constant on a path.",
+   TRUST + "compile() as an opaque oracle per accepting path", SYM + "; compile()/shape walker per accepting path"),
+ "C08": ("model_checking", "§2 C08",
+   "generate_tokens runs on symbolic characters through a symbolic regex matcher; on every finishing path the tiling predicate is evaluated on the symbolic token "
+   "list (character equalities decided by z3 under the path condition). All strings up to length 2/3 (+newline), seeds with 1 (thorough: 2 adjacent) symbolic characters.",
+   TRUST + "StringIO line splitting model", SYM),
+ "C11": ("model_checking", "§2 C11",
+   "On every rejecting path of the symbolic explorations the raised SyntaxError/IndentationError is checked (message, file name, line range, column inside the line, "
+   "end >= start, text begins with the line); at token level columns are z3 terms and the inequalities are proved for every spacing of the path class.",
+   TRUST + "text comparisons evaluated on the path witness", SYM + " + z3-proved column inequalities"),
 }
 def main():
     checks = []
